@@ -838,7 +838,7 @@ def tail_fields(blk):
             [bytes(k) for k in blk.text_data.keys()])
 
 
-def embedded_tree(ck, hosts, kvs, with_doc):
+def embedded_tree(ck, hosts, kvs, with_doc, all_hosts=True):
     """the generated tree as the engine data of a type-tool block / of a saved document: the length marker delimits
     exactly the written engine data; re-reading exposes an equal EngineData tree and leaves the rest of the block alone"""
     import io
@@ -855,6 +855,8 @@ def embedded_tree(ck, hosts, kvs, with_doc):
     logging.disable(logging.CRITICAL)
     try:
         for host, template in hosts.blocks.items():
+            if host != "hand-built" and not all_hosts:
+                continue
             inp = {"tree": jtree(t), "layout": 0, "embed": "block:" + host}
             ck.count("embedded-generated:block:" + host)
             try:
@@ -1017,6 +1019,14 @@ def run():
         return ck.finish()
 
 
+def _phase(ck, name):
+    import time
+
+    now = time.time()
+    ck.dist["seconds:" + name] = round(now - getattr(ck, "_t_phase", ck.t0), 1)
+    ck._t_phase = now
+
+
 def _run(ck):
     ck.rule = ("trees: every string over the critical alphabet {a ( ) \\ CR U+015C U+5C5C U+2829 U+FEFF NUL U+295C} up to the "
                "tier's length, the same strings in every container position, int/decimal/bool/property/tag tables, "
@@ -1029,6 +1039,7 @@ def _run(ck):
     if ok:
         ck.collect_theorems("C18.v")
     thorough = ck.tier == "thorough"
+    _phase(ck, "coq build + theorems")
     # ---------------- trees x layouts: oracle + write / tokens / parse correspondence
     wcases, tcases, pcases, seeds, relaid = [], [], [], [], []
     hosts = Hosts()
@@ -1041,8 +1052,10 @@ def _run(ck):
         if not in_domain:
             ck.count("guard:outside the property's domain (name / tag form)")
         if in_domain:
-            every = 4 if thorough else 12
-            embedded_tree(ck, hosts, kvs, with_doc=(tag in ("shape", "int", "float", "bool", "tag", "prop") or ntree % every == 0))
+            every = 4 if thorough else 20
+            special = tag in ("shape", "int", "float", "bool", "tag", "prop")
+            embedded_tree(ck, hosts, kvs, with_doc=(special or ntree % every == 0),
+                          all_hosts=(thorough or special or ntree % 3 == 0))
         for ly in (0, 1):
             if in_domain:
                 oracle_tree(ck, kvs, ly)
@@ -1054,7 +1067,7 @@ def _run(ck):
                 pcases.append(((ly, kvs), [h63_list(0, impl_parse(data, ly))]))
                 if len(data) <= 200 and (ntree % 3 == 0):
                     seeds.append(bytes(data))
-                if in_domain and len(data) <= 400 and ntree % (2 if thorough else 5) == 0:
+                if in_domain and len(data) <= 400 and ntree % (2 if thorough else 10) == 0:
                     # the same tokens in a layout of our own: must read as the same tree (theorem parse_any_layout)
                     rl = relayout(ck.rng, bytes(data))
                     if rl is None:
@@ -1080,11 +1093,21 @@ def _run(ck):
         if ntree in (700, 1800, 2500):
             ck.sample({"tree": jtree(t), "EngineData": bytes(impl_write(kvs, 0)[0][1:120]).decode("latin1"),
                        "EngineData2": bytes(impl_write(kvs, 1)[0][1:120]).decode("latin1")})
-    for name, fn, cs in (("write", "write_dig", wcases), ("tokens_of_written", "tokw_dig", tcases),
-                         ("parse_of_written", "parsew_dig", pcases)):
-        bad = ck.correspond(name, fn, IMPORTS, cs, wcase_lit, chunk=600)
-        for i in bad[:3]:
-            ck.notes.append("%s: model/implementation differ on %r" % (name, jtree(("D", cs[i][0][1]))))
+    _phase(ck, "trees: implementation + oracles")
+    # one pass over the written trees: bytes, returned count, tokens, parsed tree; the separate streams are run only on
+    # the cases that differ, to name the component
+    merged = []
+    for (a1, o1), (_, o2), (_, o3) in zip(wcases, tcases, pcases):
+        merged.append((a1, o1 + o2 + o3 if len(o2) == 1 and o1[1] >= 0 else o2))
+    bad = ck.correspond("written", "written_dig", IMPORTS, merged, wcase_lit, chunk=600)
+    if bad:
+        sel = bad[:60]
+        for name, fn, cs in (("write", "write_dig", wcases), ("tokens_of_written", "tokw_dig", tcases),
+                             ("parse_of_written", "parsew_dig", pcases)):
+            b2 = ck.correspond(name, fn, IMPORTS, [cs[i] for i in sel], wcase_lit, chunk=600)
+            for i in b2[:3]:
+                ck.notes.append("%s: model/implementation differ on %r" % (name, jtree(("D", cs[sel[i]][0][1]))))
+    _phase(ck, "trees: model")
     # ---------------- raw bytes: fixtures, malformed
     blobs = fixture_blobs()
     uniq = {}
@@ -1096,7 +1119,7 @@ def _run(ck):
         seen, sel = set(), []
         for n, b in ublobs:
             key = len(impl_tokens(b))
-            if n.endswith(".dat") or key not in seen:
+            if n.endswith(".dat") or n.endswith("layers/type-layer.psd#0") or (key not in seen and len(seen) < 7):
                 seen.add(key)
                 sel.append((n, b))
         ublobs = sel
@@ -1165,6 +1188,7 @@ def _run(ck):
     bad = ck.correspond("fixture_rewrite", "rewrite_dig", IMPORTS, fx_r, lambda a: "(%d, %s)" % (a[0], zlist(a[1])), chunk=800)
     for i in bad[:3]:
         ck.notes.append("fixture_rewrite differ on layout %d blob of %d bytes" % (fx_r[i][0][0], len(fx_r[i][0][1])))
+    _phase(ck, "raw bytes: fixtures, embedded fixtures, malformed, relayout")
     # ---------------- single-byte white-space edits of the fixture blobs (theorems parse_whitespace_insensitive /
     # divider_required): every divider deleted, a divider inserted at every token boundary (thorough: all edits of four
     # blobs, a sample of the others; quick: a sample of two)
@@ -1189,6 +1213,7 @@ def _run(ck):
         bad = ck.correspond("ws_edit_%d" % bi, "ws_edit_dig %s" % zlist(b), IMPORTS, ecases, lambda a: "(%d, %d, %d)" % a, chunk=(60 if thorough else 14))
         for i in bad[:2]:
             ck.notes.append("ws_edit on %s differ at edit %r" % (nm, ecases[i][0]))
+    _phase(ck, "white-space edits")
     # ---------------- element level: String escape / unescape on every critical string, Float text
     m = ED()
     s_cases, u_cases = [], []
@@ -1252,6 +1277,7 @@ def _run(ck):
         g_cases.append((list(tx), list(fcanon(v))))
     ck.correspond("float_write", "float_text", IMPORTS, f_cases, lambda a: "(%d, %d, %d)" % a, chunk=1500)
     ck.correspond("float_read", "float_parse", IMPORTS, g_cases, zlist, chunk=1500)
+    _phase(ck, "element level")
     ck.assumptions += [
         "which double has which '%.8f' rounding is CPython's (tested here against exact Decimal half-even rounding, not modelled); "
         "Float values are modelled by (sign, magnitude in 1e-8 units, tiny flag)",
